@@ -629,6 +629,14 @@ func drawMinimize(t *simrt.Tape) *minInst {
 	if in.method == mNewton && in.obj.hess == nil {
 		in.method = mBFGS
 	}
+	if in.method == mNelderMead && in.obj.bad == 0 && !defaults && t.Choose(simrt.KFault, 3) == 2 {
+		// NelderMead orders and compares values at every step, and reflects
+		// and expands beyond its simplex: a NaN half-space next to the start
+		// is where those comparisons meet NaN
+		in.obj.bad = 1
+		in.obj.nanCut = float64(t.Choose(simrt.KFault, 9)) - 4.5
+		in.obj.name += fmt.Sprintf("+%v(x0>%v)", in.obj.badVal(), in.obj.nanCut)
+	}
 	in.initX = make([]float64, in.dim)
 	for i := range in.initX {
 		in.initX[i] = float64(t.Choose(simrt.KValue, 17)-8) / 2
@@ -1413,6 +1421,9 @@ func runMinimize(t *simrt.Tape, rc *RunCtx) *Violation {
 			return v
 		}
 	} else {
+		if v := checkListSearchTies(rc, prop, in, r); v != nil {
+			return v
+		}
 		// C09 "always terminate": a run that has returned does not report
 		// itself as not terminated
 		rc.oracle("terminated-status")
@@ -1504,6 +1515,55 @@ func gradNormInf(o *objective, x []float64) float64 {
 		}
 	}
 	return m
+}
+
+// checkListSearchTies: see the comment inside. Used for C19 (a coherent
+// result) and for C09 (the serial answer whatever the schedule).
+func checkListSearchTies(rc *RunCtx, prop string, in *minInst, r *minRun) *Violation {
+	if r.res == nil {
+		return nil
+	}
+	// ListSearch with several rows attaining the minimum: the answer is the
+	// one a single task gives, the first such row of the list among the rows
+	// evaluated, whatever order the results came back in ("results do not
+	// depend on goroutine scheduling")
+	if r.err == nil && in.method == mListSearch && in.lsTies && r.locs != nil && !r.log.overflow && r.log.n > 0 && r.res.Stats.MajorIterations > 0 && in.prime == 0 {
+		rc.oracle("listsearch-first-of-ties")
+		evaluated := func(row []float64) bool {
+			for k := 0; k < r.log.n; k++ {
+				same := true
+				for j := 0; j < in.dim; j++ {
+					same = same && math.Float64bits(r.log.xs[k*in.dim+j]) == math.Float64bits(row[j])
+				}
+				if same {
+					return true
+				}
+			}
+			return false
+		}
+		min := r.log.minValue()
+		first, ties := -1, 0
+		for i := 0; i < in.rows; i++ {
+			row := mat.Row(nil, i, r.locs)
+			if evaluated(row) && in.obj.f(row) == min {
+				ties++
+				if first < 0 {
+					first = i
+				}
+			}
+		}
+		if ties >= 2 {
+			rc.probe("listsearch_minimum_attained_by_several_rows", 1)
+			want := mat.Row(nil, first, r.locs)
+			for j := range want {
+				if math.Float64bits(want[j]) != math.Float64bits(r.res.X[j]) {
+					return &Violation{prop, "minimize/listsearch/tie-broken-by-arrival-order", fmt.Sprintf("ListSearch: %d evaluated rows attain the minimum %v; the first of them in the list is row %d = %v, Result.X = %v (Concurrent=%d, status %v)", ties, min, first, want, r.res.X, in.conc, r.res.Status)}
+				}
+			}
+		}
+	}
+
+	return nil
 }
 
 // checkC19 evaluates oracles 3, 5, 6 of DESIGN.md section 7.
@@ -1604,44 +1664,8 @@ func checkC19(rc *RunCtx, in *minInst, r *minRun, nTasks int) *Violation {
 		}
 	}
 
-	// ListSearch with several rows attaining the minimum: the answer is the
-	// one a single task gives, the first such row of the list among the rows
-	// evaluated, whatever order the results came back in ("results do not
-	// depend on goroutine scheduling")
-	if err == nil && in.method == mListSearch && in.lsTies && r.locs != nil && !log.overflow && log.n > 0 && st.MajorIterations > 0 && in.prime == 0 {
-		rc.oracle("listsearch-first-of-ties")
-		evaluated := func(row []float64) bool {
-			for k := 0; k < log.n; k++ {
-				same := true
-				for j := 0; j < in.dim; j++ {
-					same = same && math.Float64bits(log.xs[k*in.dim+j]) == math.Float64bits(row[j])
-				}
-				if same {
-					return true
-				}
-			}
-			return false
-		}
-		min := log.minValue()
-		first, ties := -1, 0
-		for i := 0; i < in.rows; i++ {
-			row := mat.Row(nil, i, r.locs)
-			if evaluated(row) && in.obj.f(row) == min {
-				ties++
-				if first < 0 {
-					first = i
-				}
-			}
-		}
-		if ties >= 2 {
-			rc.probe("listsearch_minimum_attained_by_several_rows", 1)
-			want := mat.Row(nil, first, r.locs)
-			for j := range want {
-				if math.Float64bits(want[j]) != math.Float64bits(res.X[j]) {
-					return &Violation{prop, "minimize/listsearch/tie-broken-by-arrival-order", fmt.Sprintf("ListSearch: %d evaluated rows attain the minimum %v; the first of them in the list is row %d = %v, Result.X = %v (Concurrent=%d, status %v)", ties, min, first, want, res.X, in.conc, res.Status)}
-				}
-			}
-		}
+	if v := checkListSearchTies(rc, prop, in, r); v != nil {
+		return v
 	}
 
 	// Oracle 5: the status names the cause (soundness)
@@ -2138,7 +2162,9 @@ func checkLinesearchSteps(rc *RunCtx, in *minInst, r *minRun) *Violation {
 	var prev *recEntry
 	for i := range r.rec.entries {
 		e := &r.rec.entries[i]
-		if e.x == nil {
+		if e.x == nil || (e.op != optimize.InitIteration && e.op != optimize.MajorIteration) {
+			// (the record that follows a MajorIteration also carries its x,
+			// for checkInitialSteps; it is not an announced location)
 			continue
 		}
 		if prev == nil || prev.g == nil || e.g == nil {
